@@ -31,3 +31,30 @@ package diagnostic
 //@ func involvesTestFile
 //@ pure
 //@ nobody
+
+//@ -- C13: grouping is a partition. In each iteration of the grouping loop the conflict either becomes the head of
+//@ -- a new group (its key is recorded) or is added - as a copy, exactly once - to the similar list of the head that
+//@ -- has the same key, and is marked to be dropped from the top level; no other group changes.
+//@ define (similarLen all h) (len (. (idx all h) similarConflicts))
+//@ func groupConflicts
+//@ loop 0 step joins-existing-group-or-starts-one
+//@   (let ((found (atloop (mapin conflictsMap key))) (h (atloop (mapget conflictsMap key))))
+//@     (and (= (mapin indicesToIgnore i) found)
+//@          (=> found (and (= (mapget conflictsMap key) h)
+//@                         (= (similarLen allConflicts h) (+ (atloop (similarLen allConflicts h)) 1))
+//@                         (= (deref (idx (. (idx allConflicts h) similarConflicts) (atloop (similarLen allConflicts h)))) c)))
+//@          (=> (not found) (and (mapin conflictsMap key) (= (mapget conflictsMap key) i)))
+//@          (forall ((g Int)) (=> (and (<= 0 g) (< g (len allConflicts)) (not (and found (= g h)))) (= (similarLen allConflicts g) (atloop (similarLen allConflicts g)))))
+//@          (forall ((k Str)) (=> (not (= k key)) (and (= (mapin conflictsMap k) (atloop (mapin conflictsMap k))) (= (mapget conflictsMap k) (atloop (mapget conflictsMap k))))))
+//@          (forall ((j Int)) (=> (not (= j i)) (= (mapin indicesToIgnore j) (atloop (mapin indicesToIgnore j)))))))
+//@ loop 0 invariant heads-in-range (forall ((k Str)) (=> (mapin conflictsMap k) (and (<= 0 (mapget conflictsMap k)) (<= (mapget conflictsMap k) rangeindex) (< (mapget conflictsMap k) (len allConflicts)))))
+//@ loop 3 step top-level-keeps-exactly-the-heads
+//@   (ite (mapin indicesToIgnore i) (= groupedConflicts (athead groupedConflicts))
+//@        (and (= (len groupedConflicts) (+ (len (athead groupedConflicts)) 1)) (= (idx groupedConflicts (len (athead groupedConflicts))) c)))
+
+//@ -- rendering of a nil path, used as a function of the path (the grouping proof holds for any key function)
+//@ func pathString
+//@ pure
+//@ nobody
+//@ func groupConflicts
+//@ loop 0 invariant only-processed-dropped (forall ((j Int)) (=> (mapin indicesToIgnore j) (and (<= 0 j) (<= j rangeindex))))
